@@ -165,9 +165,13 @@ fn check_dfa_graph(g: &dot::Graph, d: &DFA, prefix: &str, scope: &[String], base
             }
             // two clusters can show the same picture (same word language written in a different order):
             // the entry edges decide which one belongs to this automaton
-            let entries_ok = word_trans.iter().filter(|(_, _, id, _)| id == ident).all(|(from, _, _, _)| has_dashed(&node_id(*from), &format!("_{j}_{}", sv.states[sv.structure.start] + base)));
+            // (command labels do not show the fallback level, so two different automata can also look alike)
+            let entries_ok = word_trans.iter().filter(|(_, _, id, _)| id == ident).all(|(from, to, _, _)| {
+                has_dashed(&node_id(*from), &format!("_{j}_{}", sv.states[sv.structure.start] + base))
+                    && sv.states.iter().enumerate().filter(|(i, _)| sv.structure.accept[*i]).all(|(_, s)| has_dashed(&format!("_{j}_{}", s + base), &node_id(*to)))
+            });
             if !entries_ok {
-                last_err = format!("cluster {c} shows the automaton but the dashed entry edges lead elsewhere");
+                last_err = format!("cluster {c} shows the automaton but the dashed entry / exit edges lead elsewhere");
                 continue;
             }
             found = Some((c.clone(), j.to_string()));
